@@ -12,7 +12,7 @@ job("fd_ownership", "C17", 4)
 for t in ("u32", "f64", "s1", "tr"):
     job("rt_%s_stream" % t, "C01", 26, tier=("quick" if t in ("u32", "f64") else "thorough"), extra="  unwindset ReadEntries 4\n  unwindset ::dec( 4\n  unwindset nop::FdReader::Read(unsigned char *) 3\n  unwindset nop::FdReader::Read(void *, void *) 10\n  unwindset nop::FdWriter::Write(unsigned char) 3\n  unwindset nop::FdWriter::Write(const void *, const void *) 10\n  unwindset nop::StreamWriter< 12\n")
 for t in ("u32", "f64", "s1"):
-    job("rt_%s_fd" % t, "C01", 26, tier=("quick" if t == "u32" else "thorough"), extra="  unwindset nop::FdReader::Read(unsigned char *) 3\n  unwindset nop::FdReader::Read(void *, void *) 10\n  unwindset nop::FdWriter::Write(unsigned char) 3\n  unwindset nop::FdWriter::Write(const void *, const void *) 10\n")
+    job("rt_%s_fd" % t, "C01", 26, tier="thorough", extra="  unwindset nop::FdReader::Read(unsigned char *) 3\n  unwindset nop::FdReader::Read(void *, void *) 10\n  unwindset nop::FdWriter::Write(unsigned char) 3\n  unwindset nop::FdWriter::Write(const void *, const void *) 10\n")
 job("rt_s1_ped_stream", "C01", 26, tier="thorough")
 job("rt_s1_stream_fd", "C01", 26, tier="thorough", extra="  unwindset nop::FdReader::Read(unsigned char *) 3\n  unwindset nop::FdReader::Read(void *, void *) 10\n")
 for t, n in (("u32", 7), ("f64", 11), ("s1", 18), ("tr", 10)):
